@@ -148,14 +148,16 @@ MANIFEST_TEXT = {
                 "carries the node's parties. Grammar.generate itself: the tree returned is the parse, under the generator's symbol, "
                 "of the value the generator expression returned; a value of another type raises TypeError, a value that does not "
                 "parse raises FandangoParseError (nothing is ever put in its place); its sources are deep copies of the argument "
-                "trees. The rest of C16 (regeneration when arguments change, sources after parsing/copying, "
+                "trees. DerivationTree.replace_multiple on a generator-defined node: the generator is re-run (on the NEW argument "
+                "trees) if and only if one of the recorded argument trees changed (unless the node sits below another generator's "
+                "output), sources are re-derived iff only a child changed. The rest of C16 (regeneration when arguments change, sources after parsing/copying, "
                 "search operators) is a bounded stand-in: in every tree emitted by the search for 7 generator specs (constant, random, one and two "
                 "arguments, nested, next to constraints and equality repairs) each generator-defined node carries a value the "
                 "generator returns for the argument values recorded in the node's sources, and its children are read-only.",
         "note": "category stays exploration: only the generator branch of NonTerminalNode.fuzz is under a verified contract "
                 "(Grammar.generate_string = the user's generator expression, Grammar.parse (C04), is_use_generator, generator_dependencies, set_all_read_only, deepcopy assumed); the oracle of the bounded "
                 "half recomputes the known generator functions of the specs; bounded over specs and seeds.",
-        "technique": "contract-based deductive verification of NonTerminalNode.fuzz (generator branch) and Grammar.generate + bounded run-time contract check with a recomputing oracle",
+        "technique": "contract-based deductive verification of NonTerminalNode.fuzz (generator branch) Grammar.generate and replace_multiple (generator path) + bounded run-time contract check with a recomputing oracle",
     },
     "C04": {
         "text": "Bounded stand-in, not a proof: the postcondition of Grammar.parse_forest / Fandango.parse (every yielded tree is a "
